@@ -8,9 +8,11 @@
 package main
 
 import (
+	"crypto/sha1"
 	"crypto/sha256"
 	"crypto/sha3"
 	"encoding/base64"
+	"encoding/hex"
 	"encoding/json"
 	"flag"
 	"fmt"
@@ -22,9 +24,12 @@ import (
 	"github.com/sirupsen/logrus"
 
 	"github.com/projectcalico/calico/felix/ipsets"
+	"github.com/projectcalico/calico/felix/nftables"
 	"github.com/projectcalico/calico/felix/rules"
 	"github.com/projectcalico/calico/felix/types"
+	"github.com/projectcalico/calico/libcalico-go/lib/backend/k8s/conversion"
 	"github.com/projectcalico/calico/libcalico-go/lib/hash"
+	"github.com/projectcalico/calico/libcalico-go/lib/ipam/vmipam"
 )
 
 type rng struct{ s uint64 }
@@ -132,6 +137,9 @@ func (c *caseT) hashEntry(kind int, in string) {
 	case 2:
 		h := sha3.Sum224([]byte(in))
 		out = base64.RawURLEncoding.EncodeToString(h[:])
+	case 3:
+		h := sha1.Sum([]byte(in))
+		out = hex.EncodeToString(h[:])
 	}
 	c.tbl = append(c.tbl, fmt.Sprintf("(%d%%N, %s, %s)", kind, cb(in), cb(out)))
 }
@@ -288,6 +296,65 @@ func (c *caseT) temp(v6 bool, n uint64) {
 		func() string { return cfg(v6).NameForTempIPSet(uint(n)) })
 }
 
+// ---------- further shorteners ----------
+
+func (c *caseT) nftStatic(v6 bool, id string) {
+	if len(id) > 25 {
+		c.shortened++
+	}
+	c.add(fmt.Sprintf("IdNftSet %s (SetStatic %s)", cbool(v6), cb(id)), fmt.Sprintf("nftset(%v,%q)", v6, id),
+		func() string { return nftables.LegalizeSetName(cfg(v6).NameForMainIPSet(id)) })
+}
+
+func (c *caseT) nftHashed(v6 bool, tag, content string) {
+	c.hashEntry(1, tag+":"+content)
+	c.shortened++
+	c.add(fmt.Sprintf("IdNftSet %s (SetHashed %s %s)", cbool(v6), cb(tag), cb(content)),
+		fmt.Sprintf("nftset(%v,%q:%q)", v6, tag, content),
+		func() string { return nftables.LegalizeSetName(cfg(v6).NameForMainIPSet(hash.MakeUniqueID(tag, content))) })
+}
+
+func (c *caseT) nflog(text string) {
+	if len(text) >= 63 {
+		c.hashEntry(0, text)
+		c.shortened++
+	}
+	c.add("IdNflog "+cb(text), fmt.Sprintf("nflog(%q)", text), func() string { return rules.VerifMaybeHash(text) })
+}
+
+func (c *caseT) nflogRule(action, owner, dir byte, idx int, p types.PolicyID) {
+	text := fmt.Sprintf("%c%c%c%d|%s", action, owner, dir, idx, p.ID())
+	if len(text) >= 63 {
+		c.hashEntry(0, text)
+		c.shortened++
+	}
+	c.add(fmt.Sprintf("IdNflogRule %d%%N %d%%N %d%%N %d%%N %s", action, owner, dir, idx, cpid(p)),
+		fmt.Sprintf("nflogrule(%c%c%c,%d,%q,%q,%q)", action, owner, dir, idx, p.Kind, p.Namespace, p.Name),
+		func() string {
+			q := p
+			return rules.CalculateNFLOGPrefixStr(rules.RuleAction(action), rules.RuleOwnerType(owner), rules.RuleDir(dir), idx, &q)
+		})
+}
+
+var wepConv = conversion.NewWorkloadEndpointConverter()
+
+func (c *caseT) veth(ns, pod string) {
+	c.hashEntry(3, ns+"."+pod)
+	c.shortened++
+	c.add(fmt.Sprintf("IdVeth %s %s", cb(ns), cb(pod)), fmt.Sprintf("veth(%q,%q)", ns, pod),
+		func() string { return wepConv.VethNameForWorkload(ns, pod) })
+}
+
+func (c *caseT) vmHandle(net, ns, vm string) {
+	n := net
+	if n == "" {
+		n = "k8s-pod-network"
+	}
+	c.gllidHash(n+".vmi.", ns+"."+vm, 128)
+	c.add(fmt.Sprintf("IdVMHandle %s %s %s", cb(net), cb(ns), cb(vm)), fmt.Sprintf("vmhandle(%q,%q,%q)", net, ns, vm),
+		func() string { return vmipam.CreateVMHandleID(net, ns, vm) })
+}
+
 // ---------- generators ----------
 
 const nameChars = "abcdefghijklmnopqrstuvwxyz0123456789-."
@@ -438,7 +505,7 @@ func colliderCase(r *rng, c *caseT, which int) {
 			c.endpoint(pfx, carried(pfx, x, max), nft)
 		}
 	default: // direct calls at several limits
-		for _, m := range []int{28, 31, 256, 60, 52, 53} {
+		for _, m := range []int{28, 31, 256, 128, 60, 52, 53} {
 			p := r.pick([]string{"cali-pi-", "cali-pri-", "cali-tw-", "cali40", ""})
 			x := randStr(r, ifaceChars, m-len(p)+1+r.intn(8))
 			c.raw(p, x, m)
@@ -448,7 +515,7 @@ func colliderCase(r *rng, c *caseT, which int) {
 }
 
 func genCase(r *rng, c *caseT) {
-	theme := r.intn(10)
+	theme := r.intn(14)
 	switch theme {
 	case 0, 1: // direct calls, arbitrary prefix and limit
 		c.tags["theme:raw"] = true
@@ -629,6 +696,120 @@ func genCase(r *rng, c *caseT) {
 			c.mainStatic(false, long+"y")
 			c.mainStatic(false, "t1")
 			c.mainStatic(false, "")
+		}
+	case 10: // nftables set names (':' becomes '-')
+		c.tags["theme:nftset"] = true
+		statics := []string{rules.IPSetIDNATOutgoingMasqPools, rules.IPSetIDAllHostNets, rules.IPSetIDAllVXLANSourceNets,
+			rules.IPSetIDThisHostIPs, rules.IPSetIDNetworkPools, rules.IPSetIDDSCPEndpoints, rules.IPSetIDNoFlowOffload,
+			rules.IPSetIDAllIstioWEPs}
+		for i := 0; i < 3; i++ {
+			id := r.pick(statics)
+			c.nftStatic(false, id)
+			c.nftStatic(true, id)
+		}
+		c.nftStatic(false, randStr(r, nameChars, 23+r.intn(2)))
+		tags := []string{"s", "n", "svc", "svcnoport"}
+		for i := 0; i < 4; i++ {
+			content := r.pick([]string{"all()", "has(a)", "default/svc", "tcp,http"}) + randStr(r, nameChars, r.intn(4))
+			tg := r.pick(tags)
+			v6 := r.intn(2) == 0
+			c.nftHashed(v6, tg, content)
+			c.nftHashed(v6, tg, content+"x")
+			c.nftHashed(!v6, r.pick(tags), content)
+		}
+		// "svc" + "-noport..." style confusion after the replacement: a fixed ID spelled like a legalized hashed one
+		c.nftStatic(false, "svc-noport")
+		c.nftStatic(false, "s-"+randStr(r, nameChars, 10))
+		if r.intn(2) == 0 {
+			c.tags["malformed"] = true
+			x := randStr(r, nameChars, 3+r.intn(8))
+			c.nftStatic(false, x+":"+"b")
+			c.nftStatic(false, x+"-"+"b")
+			c.nftHashed(false, "a-b", "x")
+			c.nftHashed(false, "a", "b-x")
+		}
+	case 11: // NFLOG prefixes
+		c.tags["theme:nflog"] = true
+		for _, n := range []int{61, 62, 63, 64} {
+			c.nflog(randStr(r, ifaceChars, n))
+		}
+		long := randStr(r, ifaceChars, 64+r.intn(40))
+		c.nflog(long)
+		// same first and last 10 characters, different middle
+		mid := []byte(long)
+		mid[len(mid)/2] ^= 1
+		if mid[len(mid)/2] < 33 {
+			mid[len(mid)/2] = 'z'
+		}
+		c.nflog(string(mid))
+		c.nflog(long[:10] + "x" + long[10:])
+		// the text a hashed prefix turns into, used as a prefix itself (63 bytes: must be hashed again)
+		h := b64sha256(long)
+		c.nflog(long[:10] + "_" + h[:41] + "_" + long[len(long)-10:])
+		// and one byte shorter (62 bytes: stays as it is, cannot equal a hashed one)
+		c.nflog(long[:10] + "_" + h[:40] + "_" + long[len(long)-10:])
+		p := genPolicy(r, 20+r.intn(70))
+		acts := []byte{'A', 'D', 'P'}
+		for i := 0; i < 3; i++ {
+			a := acts[r.intn(3)]
+			d := []byte{'I', 'E'}[r.intn(2)]
+			idx := []int{0, 1, 9, 10, 11, 123, 100000}[r.intn(7)]
+			c.nflogRule(a, 'P', d, idx, p)
+			c.nflogRule(a, 'P', d, idx+1, p)
+			q := p
+			q.Name = p.Name + "0"
+			c.nflogRule(a, 'P', d, idx, q)
+		}
+		lp := genPolicy(r, 60+r.intn(60))
+		c.nflogRule('D', 'P', 'I', 1, lp)
+		c.nflogRule('D', 'P', 'I', 11, lp)
+		c.nflogRule('A', 'P', 'I', 1, lp)
+		c.nflogRule('D', 'P', 'E', 1, lp)
+		lq := lp
+		lq.Name = lp.Name[:len(lp.Name)/2] + "0" + lp.Name[len(lp.Name)/2:]
+		c.nflogRule('D', 'P', 'I', 1, lq)
+	case 12: // veth names
+		c.tags["theme:veth"] = true
+		for i := 0; i < 5; i++ {
+			ns := resName(r, 1+r.intn(20))
+			ns = strings.ReplaceAll(ns, ".", "-")
+			pod := resName(r, 1+r.intn(40))
+			c.veth(ns, pod)
+			c.veth(ns, pod+"-0")
+			c.veth(ns+"x", pod)
+		}
+		if r.intn(2) == 0 {
+			c.tags["malformed"] = true
+			c.veth("a", "b.c")
+			c.veth("a.b", "c")
+		}
+	case 13: // VM IPAM handle IDs (limit 128)
+		c.tags["theme:vmhandle"] = true
+		nets := []string{"", "k8s-pod-network", "multus-net1", strings.ReplaceAll(resName(r, 3+r.intn(30)), ".", "-")}
+		for i := 0; i < 4; i++ {
+			net := r.pick(nets)
+			ns := strings.ReplaceAll(resName(r, 1+r.intn(20)), ".", "-")
+			pl := len(net)
+			if net == "" {
+				pl = 15
+			}
+			room := 128 - pl - 5 - len(ns) - 1
+			c.vmHandle(net, ns, resName(r, 1+r.intn(30)))
+			for _, n := range []int{room - 1, room, room + 1, room + 20 + r.intn(100)} {
+				if n >= 1 {
+					vm := resName(r, n)
+					c.vmHandle(net, ns, vm)
+					if n > room {
+						c.vmHandle(net, ns, vm[:n-1]+"0")
+						c.vmHandle(r.pick(nets[1:]), ns, vm)
+					}
+				}
+			}
+		}
+		if r.intn(2) == 0 {
+			c.tags["malformed"] = true
+			c.vmHandle("a", "vmi", "b.c")
+			c.vmHandle("a.vmi", "b", "c")
 		}
 	default: // one text through every family of one table
 		c.tags["theme:cross-family"] = true
